@@ -231,6 +231,20 @@ enum PartitionValue {
     Multi,
 }
 
+/// Whether every value of the literal's type is written in exactly one way as
+/// a partition directory name, so that equality on the value implies equality
+/// of the directory text.
+fn literal_has_single_spelling(val: &ScalarValue) -> bool {
+    matches!(
+        val,
+        ScalarValue::Utf8(_)
+            | ScalarValue::LargeUtf8(_)
+            | ScalarValue::Utf8View(_)
+            | ScalarValue::Date32(_)
+            | ScalarValue::Date64(_)
+    )
+}
+
 fn populate_partition_values<'a>(
     partition_values: &mut HashMap<&'a str, PartitionValue>,
     filter: &'a Expr,
@@ -239,15 +253,20 @@ fn populate_partition_values<'a>(
         match op {
             Operator::Eq => match (left.as_ref(), right.as_ref()) {
                 (Expr::Column(Column { name, .. }), Expr::Literal(val, _))
-                | (Expr::Literal(val, _), Expr::Column(Column { name, .. }))
-                    if partition_values
-                        .insert(name, PartitionValue::Single(val.to_string()))
-                        .is_some() =>
-                {
-                    partition_values.insert(name, PartitionValue::Multi);
+                | (Expr::Literal(val, _), Expr::Column(Column { name, .. })) => {
+                    // The prefix is matched against directory names as text.
+                    // Only a literal whose type has a single textual spelling
+                    // pins down that text: `month = 1` is also satisfied by a
+                    // directory named `month=01` or `month=+1`.
+                    let value = if literal_has_single_spelling(val) {
+                        PartitionValue::Single(val.to_string())
+                    } else {
+                        PartitionValue::Multi
+                    };
+                    if partition_values.insert(name, value).is_some() {
+                        partition_values.insert(name, PartitionValue::Multi);
+                    }
                 }
-                (Expr::Column(Column { .. }), Expr::Literal(_, _))
-                | (Expr::Literal(_, _), Expr::Column(Column { .. })) => {}
                 _ => {}
             },
             Operator::And => {
